@@ -709,6 +709,48 @@ func runC03(p *core.Prog, r *core.Report, tier string) {
 			}
 			blocks[mu.Block()] = append(blocks[mu.Block()], app{ds.D(mu.Map).String(), path[0], root.String(), kroot.String() + "." + kd.Name})
 		})
+		// the same with the per-slot arrays held in one entry struct per slot: entry.f = append(entry.f, duty.F) where
+		// entry is the value looked up (or created) under duty.Slot
+		core.EachInstr(f, func(in ssa.Instruction) {
+			st, ok := in.(*ssa.Store)
+			if !ok {
+				return
+			}
+			fa, ok := st.Addr.(*ssa.FieldAddr)
+			if !ok {
+				return
+			}
+			c, ok := st.Val.(*ssa.Call)
+			if !ok {
+				return
+			}
+			if b, ok := c.Call.Value.(*ssa.Builtin); !ok || b.Name() != "append" {
+				return
+			}
+			srcs := appendedSources(c)
+			if len(srcs) != 1 {
+				return
+			}
+			vd := ds.D(srcs[0])
+			root, path := vd.FieldPath()
+			if len(path) != 1 {
+				return
+			}
+			key := ""
+			for _, lf := range core.PhiLeaves(fa.X, st) {
+				if ex, ok := lf.V.(*ssa.Extract); ok {
+					if lk, ok := ex.Tuple.(*ssa.Lookup); ok {
+						kd := ds.D(lk.Index)
+						kroot, _ := kd.FieldPath()
+						key = kroot.String() + "." + kd.Name
+					}
+				}
+			}
+			if key == "" {
+				return
+			}
+			blocks[st.Block()] = append(blocks[st.Block()], app{"entry", path[0], root.String(), key})
+		})
 		okAll := false
 		for _, apps := range blocks {
 			if len(apps) < 3 {
